@@ -423,7 +423,7 @@ def text_lines(lines, final_newline):
     return parts
 
 
-def spec(ref, act, o):
+def spec(ref, act, o, equiv=None):
     """
     Returns (passes, info).  info: dict with the unexcused pairs (indices
     into the post-removal lists), counts, and which option decided.
@@ -459,7 +459,8 @@ def spec(ref, act, o):
         if any(s in r for s in (o['ignore_substrings'] or [])):
             used.add('ignore_substrings')
             continue
-        if pattern_equivalent(na, nr, o['ignore_patterns'] or []):
+        if (equiv or pattern_equivalent)(na, nr,
+                                         o['ignore_patterns'] or []):
             used.add('ignore_patterns')
             if not greedy_equivalent(na, nr, o['ignore_patterns'] or []):
                 info['greedy_would_miss'] = True
